@@ -184,7 +184,7 @@ func steeredMapInputs(c *mon.Ctx) (us, xs []steeredInput) {
 	}
 
 	targets := gen.StoredTargets(p)
-	strideT := c.N(2, 1)
+	strideT := c.N(1, 1)
 
 	for ti := int(c.Seed % uint64(strideT)); ti < len(targets); ti += strideT {
 		for _, which := range []string{"u2", "tv1", "tv2", "tv3", "tv6"} {
@@ -223,7 +223,7 @@ func steeredMapInputs(c *mon.Ctx) (us, xs []steeredInput) {
 	}
 
 	for i, t := range targets {
-		if i%c.N(9, 3) == int(c.Seed%uint64(c.N(9, 3))) {
+		if i%c.N(3, 3) == int(c.Seed%uint64(c.N(3, 3))) {
 			cubicTargets = append(cubicTargets, t)
 		}
 	}
